@@ -33,7 +33,6 @@ type Man struct {
 
 type Upload struct {
 	Buf       []byte
-	Check     int64  // offset the next write must start at; -1: unchecked
 	Err       string // sticky commit failure: "", "canceled", "DIGEST_INVALID"
 	Committed bool   // a commit has succeeded: cancelling is then a no-op
 }
@@ -45,9 +44,12 @@ type Repo struct {
 	Uploads map[string]*Upload
 }
 
+// slot is one writer handle. Every handle checks, on its first write, the offset it was opened
+// at - independently of other handles on the same session.
 type slot struct {
-	repo string
-	id   string
+	repo  string
+	id    string
+	check int64 // offset the handle's next write must start at; -1: unchecked
 }
 
 type Model struct {
@@ -126,14 +128,14 @@ func (m *Model) Key() string {
 		fmt.Fprintf(&b, "T%v", ks)
 		ks = ks[:0]
 		for k, v := range r.Uploads {
-			ks = append(ks, fmt.Sprintf("%s:%x:%d:%s:%v", k, sha256.Sum256(v.Buf), v.Check, v.Err, v.Committed))
+			ks = append(ks, fmt.Sprintf("%s:%x:%s:%v", k, sha256.Sum256(v.Buf), v.Err, v.Committed))
 		}
 		sort.Strings(ks)
 		fmt.Fprintf(&b, "U%v}", ks)
 	}
 	ss := make([]string, 0, len(m.slots))
 	for k, v := range m.slots {
-		ss = append(ss, fmt.Sprintf("%d=%s/%s", k, v.repo, v.id))
+		ss = append(ss, fmt.Sprintf("%d=%s/%s/%d", k, v.repo, v.id, v.check))
 	}
 	sort.Strings(ss)
 	fmt.Fprintf(&b, "S%v", ss)
@@ -848,14 +850,22 @@ func (m *Model) Step(u *ops.Universe, op ops.Op, out ops.Out) string {
 		if out.WSize != 0 {
 			return fmt.Sprintf("upStart: initial size %d", out.WSize)
 		}
-		r.Uploads[out.ID] = &Upload{Check: 0}
-		m.slots[op.W] = slot{name, out.ID}
+		r.Uploads[out.ID] = &Upload{}
+		m.slots[op.W] = slot{name, out.ID, 0}
 		return ""
 
-	case "upResume":
+	case "upResume", "upAttach":
 		var sl slot
 		if op.Mode == 3 {
-			sl = slot{name, op.S}
+			sl = slot{name, op.S, 0}
+		} else if op.K == "upAttach" {
+			// a further handle on the session of slot O1, which stays open
+			src, ok := m.slots[int(op.O1)]
+			if !ok {
+				return "harness: attach to an empty slot was not skipped"
+			}
+			sl = src
+			delete(m.slots, op.W)
 		} else {
 			var ok bool
 			sl, ok = m.slots[op.W]
@@ -890,7 +900,7 @@ func (m *Model) Step(u *ops.Universe, op ops.Op, out ops.Out) string {
 		if out.ID != sl.id {
 			return fmt.Sprintf("upResume: id %q, want %q", out.ID, sl.id)
 		}
-		up.Check = out.WSize // the offset that was passed
+		sl.check = out.WSize // the offset that was passed
 		if op.Mode == 1 {
 			m.ev("resume-minus1")
 		} else if out.WSize != int64(len(up.Buf)) {
@@ -907,7 +917,7 @@ func (m *Model) Step(u *ops.Universe, op ops.Op, out ops.Out) string {
 			return "harness: write to an empty slot was not skipped"
 		}
 		up := m.Repos[sl.repo].Uploads[sl.id]
-		if up.Check != -1 && up.Check != int64(len(up.Buf)) {
+		if sl.check != -1 && sl.check != int64(len(up.Buf)) {
 			m.ev("wrong-offset-write")
 			if s := wantErr("RANGE_INVALID"); s != "" {
 				return s
@@ -924,7 +934,8 @@ func (m *Model) Step(u *ops.Universe, op ops.Op, out ops.Out) string {
 			return fmt.Sprintf("upWrite: wrote %d of %d bytes without error", out.N, len(out.Data))
 		}
 		up.Buf = append(up.Buf[:len(up.Buf):len(up.Buf)], out.Data...)
-		up.Check = -1
+		sl.check = -1
+		m.slots[op.W] = sl
 		return ""
 
 	case "upSize":
